@@ -153,7 +153,8 @@ impl<'de> Deserialize<'de> for Bytes {
             where
                 A: serde::de::SeqAccess<'de>,
             {
-                let mut buf = Vec::with_capacity(seq.size_hint().unwrap_or_default());
+                // The announced length comes from the input, so it only serves as a bounded hint.
+                let mut buf = Vec::with_capacity(seq.size_hint().unwrap_or_default().min(4096));
                 while let Some(byte) = seq.next_element()? {
                     buf.push(byte);
                 }
